@@ -133,10 +133,342 @@ Proof.
   unfold clean in Hc. apply andb_true_iff in Hc as [Hc1 Hc2]. apply negb_true_iff in Hc1, Hc2.
   rewrite (get_tag_app_notin _ _ _ Hc1).
   change (get_tag T_PossDupFlag [(T_PossDupFlag, V_Y); (T_OrigSendingTime, r_time r)]) with (Some V_Y).
-  change (str_eqb V_Y V_Y) with true. cbv iota beta.
+  cbv iota beta. change (str_eqb V_Y V_Y) with true. cbv iota beta.
   rewrite filter_app. unfold codec_row in Hcr. rewrite filter_all by exact Hcr.
   change (filter (fun f0 : field => negb (header_skipped (fst f0)))
                  [(T_PossDupFlag, V_Y); (T_OrigSendingTime, r_time r)])
     with [(T_PossDupFlag, V_Y); (T_OrigSendingTime, r_time r)].
-  unfold persist. Show. cbn [r_seq rows]. unfold has_key in *. rewrite Hk. reflexivity.
+  unfold persist. cbn [r_seq rows]. unfold has_key in *. rewrite Hk. reflexivity.
+Qed.
+
+(* ------------------------------------------------------------------ the replay / gap-fill loop *)
+
+Lemma rows_ok_lb f p rs : rows_ok f p rs -> forall r, In r rs -> p <= r_seq r.
+Proof.
+  revert p; induction rs as [|x rs IH]; cbn; intros p H r Hin; [tauto|].
+  destruct H as (H1 & _ & H3). destruct Hin as [<-|Hin]; [lia|]. specialize (IH _ H3 _ Hin). lia.
+Qed.
+
+Lemma has_key_false n l : (forall r, In r l -> r_seq r < n) -> has_key n l = false.
+Proof.
+  unfold has_key. intros H. apply not_true_is_false. intros Hx.
+  apply existsb_exists in Hx as (r & Hin & He). specialize (H _ Hin). lia.
+Qed.
+
+(* s' differs from s by the frames W written and journaled (and by counters the handler overwrites) *)
+Definition same_but (s s' : st) (W : list row) : Prop :=
+  cstate s' = cstate s /\ nout s' = nout s /\ rows s' = rows s ++ W /\ wire s' = wire s ++ W
+  /\ states s' = states s.
+
+Lemma same_but_refl s : same_but s s [].
+Proof. unfold same_but. rewrite !app_nil_r. auto. Qed.
+
+Lemma same_but_trans s s1 s2 W1 W2 : same_but s s1 W1 -> same_but s1 s2 W2 -> same_but s s2 (W1 ++ W2).
+Proof.
+  unfold same_but. intros (a1 & a2 & a3 & a4 & a5) (b1 & b2 & b3 & b4 & b5).
+  rewrite b1, b2, b3, b4, b5, a1, a2, a3, a4, a5, !app_assoc. auto.
+Qed.
+
+Lemma same_but_sent fr s : same_but s (sent fr s) [fr].
+Proof. unfold same_but, sent; cbn. auto. Qed.
+
+Lemma same_but_note n s : same_but s (note_call n s) [].
+Proof. unfold same_but, note_call; cbn. rewrite !app_nil_r. auto. Qed.
+
+Definition pre (J : list row) (f : row -> bool) (c : Z) (rs : list row) (gfb gfe : Z) (rws : list row) : Prop :=
+  (forall r, In r rws -> r_seq r < gfb)
+  /\ rows_ok f (Z.max gfb gfe) rs
+  /\ (forall r, In r rs -> In r J /\ codec_row r = true /\ r_seq r < c)
+  /\ (forall r, In r J -> Z.max gfb gfe <= r_seq r -> In r rs)
+  /\ (forall n, gfb <= n < Z.max gfb gfe -> skipped J f n)
+  /\ Z.max gfb gfe <= c.
+
+Lemma pre_skip J f c r rest gfb gfe rws :
+  pre J f c (r :: rest) gfb gfe rws -> replayable f r = false -> pre J f c rest gfb (r_seq r + 1) rws.
+Proof.
+  intros (H1 & H2 & H3 & H4 & H5 & H6) Hr. cbn [rows_ok] in H2. destruct H2 as (H2a & _ & H2c).
+  assert (Hmax : Z.max gfb (r_seq r + 1) = r_seq r + 1) by lia.
+  pose proof (rows_ok_lb _ _ _ H2c) as Hlb.
+  unfold pre. rewrite Hmax. repeat split.
+  - exact H1.
+  - exact H2c.
+  - apply H3; right; assumption.
+  - apply H3; right; assumption.
+  - apply H3; right; assumption.
+  - intros x Hx Hge. destruct (H4 x Hx ltac:(lia)) as [<-|Hin]; [lia|exact Hin].
+  - intros n Hn x Hx Hsx. destruct (Z.ltb_spec n (Z.max gfb gfe)) as [Hlt|Hge].
+    + apply (H5 n ltac:(lia) x Hx Hsx).
+    + destruct (H4 x Hx ltac:(lia)) as [<-|Hin]; [exact Hr|]. specialize (Hlb _ Hin). lia.
+  - destruct (H3 r (or_introl eq_refl)) as (_ & _ & Hc). lia.
+Qed.
+
+Lemma pre_replay J f c r rest gfb gfe rws rws' :
+  pre J f c (r :: rest) gfb gfe rws -> replayable f r = true ->
+  (forall x, In x rws' -> r_seq x < r_seq r + 1) ->
+  pre J f c rest (r_seq r + 1) gfe rws'
+  /\ r_seq r = Z.max gfb gfe /\ clean r = true /\ In r J /\ codec_row r = true.
+Proof.
+  intros (H1 & H2 & H3 & H4 & H5 & H6) Hr Hrws. cbn [rows_ok] in H2. destruct H2 as (H2a & H2b & H2c).
+  destruct (H2b Hr) as (Hp & Hcl).
+  assert (Hmax : Z.max (r_seq r + 1) gfe = r_seq r + 1) by lia.
+  destruct (H3 r (or_introl eq_refl)) as (HJ & Hcr & Hc).
+  split; [|auto]. unfold pre. rewrite Hmax.
+  split; [exact Hrws|]. split; [exact H2c|].
+  split; [intros x Hx; apply H3; right; exact Hx|].
+  split; [intros x Hx Hge; destruct (H4 x Hx ltac:(lia)) as [<-|Hin]; [lia|exact Hin]|].
+  split; [intros n Hn; lia|lia].
+Qed.
+
+Lemma copy_is_copy r k : is_copy_of r (copy_frame r k).
+Proof. unfold is_copy_of, copy_frame; cbn; auto. Qed.
+Lemma gap_is_gap a h k : is_gap_fill (gap_frame a h k) a h.
+Proof. unfold is_gap_fill, gap_frame; cbn; auto. Qed.
+
+Lemma loop_ok J f lim c : forall rs gfb gfe s,
+  sending_ok s -> pre J f c rs gfb gfe (rows s) ->
+  exists gfb' gfe' s' W,
+    replay_loop f rs gfb gfe s = LOk gfb' gfe' s'
+    /\ same_but s s' W
+    /\ chain J f lim gfb gfb' W
+    /\ (forall n, gfb' <= n < Z.max gfb' gfe' -> skipped J f n)
+    /\ (forall r, In r J -> r_seq r < Z.max gfb' gfe')
+    /\ Z.max gfb' gfe' <= c
+    /\ (forall r, In r (rows s') -> r_seq r < gfb').
+Proof.
+  induction rs as [|r rest IH]; intros gfb gfe s Hs Hpre.
+  - exists gfb, gfe, s, []. destruct Hpre as (H1 & H2 & H3 & H4 & H5 & H6).
+    repeat split; try apply same_but_refl; try assumption.
+    + constructor.
+    + intros x Hx. destruct (Z.ltb_spec (r_seq x) (Z.max gfb gfe)); [assumption|]. destruct (H4 x Hx); assumption.
+  - cbn [replay_loop]. destruct (is_sess_type (r_type r)) eqn:Hst.
+    + (* session-level row *)
+      assert (Hr : replayable f r = false) by (unfold replayable; rewrite Hst; reflexivity).
+      exact (IH gfb (r_seq r + 1) s Hs (pre_skip _ _ _ _ _ _ _ _ Hpre Hr)).
+    + set (s0 := note_call (r_seq r) s).
+      assert (Hs0 : sending_ok s0) by exact Hs.
+      assert (Hrows0 : rows s0 = rows s) by reflexivity.
+      destruct (f r) eqn:Hf; cbn [negb].
+      2:{ (* declined by the application *)
+        assert (Hr : replayable f r = false) by (unfold replayable; rewrite Hf, andb_false_r; reflexivity).
+        pose proof (pre_skip _ _ _ _ _ _ _ _ Hpre Hr) as Hpre'. rewrite <- Hrows0 in Hpre'.
+        destruct (IH gfb (r_seq r + 1) s0 Hs0 Hpre') as (g1 & g2 & s' & W & E & Hsb & rest').
+        exists g1, g2, s', W. split; [exact E|]. split; [|exact rest'].
+        exact (same_but_trans _ _ _ _ _ (same_but_note (r_seq r) s) Hsb). }
+      (* retransmitted *)
+      assert (Hr : replayable f r = true) by (unfold replayable; rewrite Hst, Hf; reflexivity).
+      pose proof Hpre as (Hlt & _ & _ & _ & Hsk & _).
+      destruct (gfb <? gfe) eqn:Hcmp.
+      * (* pending gap fill first *)
+        set (g := gap_frame gfb gfe (clock s0 + 1)). set (s1 := sent g s0).
+        assert (Hk0 : has_key gfb (rows s0) = false) by (apply has_key_false; rewrite Hrows0; exact Hlt).
+        rewrite (send_gap_fill gfb gfe s0 Hs0 Hk0). fold g. fold s1.
+        set (cp := copy_frame r (clock s1 + 1)). set (s2 := sent cp s1).
+        assert (Hrows2 : forall x, In x (rows s2) -> r_seq x < r_seq r + 1).
+        { destruct (pre_replay _ _ _ _ _ _ _ _ [] Hpre Hr ltac:(cbn; tauto)) as (_ & Hp & _).
+          intros x Hx. unfold s2, s1, sent in Hx; cbn [rows] in Hx. rewrite Hrows0 in Hx.
+          apply in_app_or in Hx as [Hx|[<-|[]]]; [apply in_app_or in Hx as [Hx|[<-|[]]]|].
+          - specialize (Hlt _ Hx). lia.
+          - cbn. lia.
+          - cbn. lia. }
+        destruct (pre_replay _ _ _ _ _ _ _ _ _ Hpre Hr Hrows2) as (Hpre' & Hp & Hcl & HJ & Hcr).
+        rewrite (mk_replay_clean _ Hcl).
+        assert (Hs1 : sending_ok s1) by exact Hs.
+        assert (Hk1 : has_key (r_seq r) (rows s1) = false).
+        { apply has_key_false. intros x Hx. unfold s1, sent in Hx; cbn [rows] in Hx. rewrite Hrows0 in Hx.
+          apply in_app_or in Hx as [Hx|[<-|[]]]; [specialize (Hlt _ Hx); lia|cbn; lia]. }
+        rewrite (send_replay r s1 Hs1 Hst Hcl Hcr Hk1). fold cp. fold s2.
+        assert (Hs2 : sending_ok s2) by exact Hs.
+        destruct (IH (r_seq r + 1) gfe s2 Hs2 Hpre') as (g1 & g2 & s' & W & E & Hsb & Hch & rest').
+        exists g1, g2, s', (g :: cp :: W). split; [exact E|]. split; [|split; [|exact rest']].
+        -- change (g :: cp :: W) with ([] ++ [g] ++ [cp] ++ W).
+           eapply same_but_trans; [apply same_but_note|]. eapply same_but_trans; [apply same_but_sent|].
+           eapply same_but_trans; [apply same_but_sent|]. exact Hsb.
+        -- apply chain_gap with (h := gfe); [lia| | |apply gap_is_gap|].
+           ++ intros n Hn. apply Hsk. lia.
+           ++ right. intros Hskip. specialize (Hskip r HJ ltac:(lia)). congruence.
+           ++ replace gfe with (r_seq r) by lia.
+              apply chain_replay with (r := r); auto; apply copy_is_copy.
+      * (* no pending gap *)
+        set (cp := copy_frame r (clock s0 + 1)). set (s2 := sent cp s0).
+        assert (Hp0 : r_seq r = Z.max gfb gfe).
+        { destruct (pre_replay _ _ _ _ _ _ _ _ [] Hpre Hr ltac:(cbn; tauto)) as (_ & Hp & _). exact Hp. }
+        assert (Hrows2 : forall x, In x (rows s2) -> r_seq x < r_seq r + 1).
+        { intros x Hx. unfold s2, sent in Hx; cbn [rows] in Hx. rewrite Hrows0 in Hx.
+          apply in_app_or in Hx as [Hx|[<-|[]]]; [specialize (Hlt _ Hx); lia|cbn; lia]. }
+        destruct (pre_replay _ _ _ _ _ _ _ _ _ Hpre Hr Hrows2) as (Hpre' & Hp & Hcl & HJ & Hcr).
+        rewrite (mk_replay_clean _ Hcl).
+        assert (Hk1 : has_key (r_seq r) (rows s0) = false).
+        { apply has_key_false. rewrite Hrows0. intros x Hx. specialize (Hlt _ Hx). lia. }
+        rewrite (send_replay r s0 Hs0 Hst Hcl Hcr Hk1). fold cp. fold s2.
+        assert (Hs2 : sending_ok s2) by exact Hs.
+        destruct (IH (r_seq r + 1) gfe s2 Hs2 Hpre') as (g1 & g2 & s' & W & E & Hsb & Hch & rest').
+        exists g1, g2, s', (cp :: W). split; [exact E|]. split; [|split; [|exact rest']].
+        -- change (cp :: W) with ([] ++ [cp] ++ W).
+           eapply same_but_trans; [apply same_but_note|]. eapply same_but_trans; [apply same_but_sent|]. exact Hsb.
+        -- replace gfb with (r_seq r) by lia.
+           apply chain_replay with (r := r); auto; apply copy_is_copy.
+Qed.
+
+(* ------------------------------------------------------------------ chain facts *)
+
+Lemma chain_le J f lim a c W : chain J f lim a c W -> a <= c.
+Proof. induction 1; lia. Qed.
+
+Lemma chain_app J f lim a b c W1 W2 :
+  chain J f lim a b W1 -> chain J f lim b c W2 -> chain J f lim a c (W1 ++ W2).
+Proof.
+  induction 1; intros Hbc; cbn; [exact Hbc| |].
+  - eapply chain_replay; eauto.
+  - eapply chain_gap; eauto.
+Qed.
+
+Lemma chain_seqs J f lim a c W : chain J f lim a c W -> forall fr, In fr W -> a <= r_seq fr < c.
+Proof.
+  induction 1 as [|a c r fr rest Hin Hseq Hrep Hcp Hch IH|a h c fr rest Hlt Hsk Hmax Hgf Hch IH]; intros x Hx.
+  - destruct Hx.
+  - pose proof (chain_le _ _ _ _ _ _ Hch). destruct Hx as [<-|Hx].
+    + destruct Hcp as (E & _). lia.
+    + specialize (IH _ Hx). lia.
+  - pose proof (chain_le _ _ _ _ _ _ Hch). destruct Hx as [<-|Hx].
+    + destruct Hgf as (E & _). lia.
+    + specialize (IH _ Hx). lia.
+Qed.
+
+Lemma chain_empty J f lim a W : chain J f lim a a W -> W = [].
+Proof.
+  inversion 1; subst; auto.
+  - match goal with H : chain _ _ _ (a + 1) a _ |- _ => apply chain_le in H; lia end.
+  - match goal with H : chain _ _ _ ?h a _ |- _ => apply chain_le in H; lia end.
+Qed.
+
+(* every frame of a chain is a retransmission of a replayable journaled message or a gap fill:
+   session-level messages are never retransmitted *)
+Lemma chain_frames J f lim a c W : chain J f lim a c W -> forall fr, In fr W ->
+  (exists r, In r J /\ replayable f r = true /\ is_copy_of r fr) \/ (exists x h, is_gap_fill fr x h).
+Proof.
+  induction 1; intros x Hx; [destruct Hx| |]; (destruct Hx as [<-|Hx]; [|auto]).
+  - left. eauto.
+  - right. eauto.
+Qed.
+
+(* ------------------------------------------------------------------ the range query *)
+
+Lemma in_insert r x l : In x (insert_by_seq r l) <-> x = r \/ In x l.
+Proof.
+  induction l as [|y l IH]; cbn; [intuition|].
+  destruct (r_seq r <=? r_seq y); cbn; rewrite ?IH; intuition.
+Qed.
+
+Lemma in_sort x l : In x (sort_by_seq l) <-> In x l.
+Proof.
+  induction l as [|y l IH]; cbn; [tauto|]. rewrite in_insert, IH. intuition.
+Qed.
+
+Lemma in_recover x lo hi l : In x (recover lo hi l) <-> In x l /\ lo <= r_seq x <= hi.
+Proof.
+  unfold recover. rewrite in_sort, filter_In. intuition; lia.
+Qed.
+
+(* ------------------------------------------------------------------ the property, as one predicate *)
+
+(* the numbers [lo, hi) a ResendRequest asks for, None for a request that must not be answered
+   (unreadable, BeginSeqNo < 1, EndSeqNo below BeginSeqNo) *)
+Definition requested_range (s : st) (bs es : option str) : option (Z * Z) :=
+  match bs, es with
+  | Some bs, Some es =>
+      match py_int bs, py_int es with
+      | Some b, Some e0 =>
+          if (1 <=? b) && ((e0 =? 0) || (b <=? e0))
+          then Some (b, Z.max b (if e0 =? 0 then nout s else Z.min (e0 + 1) (nout s)))
+          else None
+      | _, _ => None
+      end
+  | _, _ => None
+  end.
+
+(* C06 for one request in one state: the frames written form the chain over the requested range of
+   already-sent numbers; journaled messages outside the range, the next outbound number (live and
+   stored) and the connection state are what they were. *)
+Definition resend_correct (f : row -> bool) (s : st) (bs es : option str) : Prop :=
+  let s' := fst (process_resend f bs es s) in
+  exists W, wire s' = wire s ++ W
+    /\ match requested_range s bs es with
+       | Some (lo, hi) =>
+           chain (rows s) f hi lo hi W
+           /\ (forall r, r_seq r < lo \/ hi <= r_seq r -> (In r (rows s') <-> In r (rows s)))
+       | None => W = [] /\ (forall r, In r (rows s') <-> In r (rows s))
+       end
+    /\ nout s' = nout s /\ sout s' = sout s /\ cstate s' = cstate s.
+
+Definition journal_ok (s : st) : Prop :=
+  Forall (fun r => r_seq r < nout s /\ codec_row r = true) (rows s)   (* rows written by send_msg below the counter *)
+  /\ sout s = nout s - 1                                               (* stored counter in step (C05) *)
+  /\ nout s <= INT64_MAX.
+
+Lemma body_ok f s b e0 :
+  sending_ok s -> journal_ok s ->
+  1 <= b <= nout s -> fits_int64 e0 = true -> (e0 = 0 \/ nout s - 1 <= e0 \/ b = nout s) ->
+  rows_ok f b (recover b (if e0 =? 0 then sys_maxsize else e0) (rows s)) ->
+  exists W s', resend_body f b e0 s = (s', None)
+    /\ wire s' = wire s ++ W /\ chain (rows s) f (nout s) b (nout s) W
+    /\ nout s' = nout s /\ sout s' = nout s - 1
+    /\ rows s' = filter (fun r => r_seq r <? b) (rows s) ++ W
+    /\ cstate s' = (if cstate s =? ST_AWAITING then cstate s else ST_ACTIVE).
+Proof.
+  intros Hs (HJ & Hso & Hmax) Hb He0 Hcov Hok.
+  set (J := rows s) in *. set (c := nout s) in *.
+  set (e := if e0 =? 0 then sys_maxsize else e0) in *.
+  rewrite Forall_forall in HJ.
+  assert (Hsm : sys_maxsize = INT64_MAX) by reflexivity.
+  unfold resend_body. fold e. fold c. fold J.
+  assert (Hfb : fits_int64 b = true) by (unfold fits_int64, INT64_MIN, INT64_MAX in *; lia).
+  assert (Hfe : fits_int64 e = true).
+  { unfold e. destruct (e0 =? 0); [rewrite Hsm; reflexivity|exact He0]. }
+  rewrite Hfb, Hfe. cbn [andb negb].
+  unfold set_seq_num_out at 1. destruct (b <=? 0) eqn:Hb0; [lia|].
+  set (s1 := mkSt (cstate s) (initiator s) (testreq_pending s) b (b - 1) (clock s)
+                  (filter (fun r => r_seq r <? b) (rows s)) (wire s) (calls s) (states s)).
+  assert (Hs1 : sending_ok s1) by exact Hs.
+  assert (Hpre : pre J f c (recover b e J) b b (rows s1)).
+  { unfold pre. rewrite Z.max_id. split; [|split; [exact Hok|split; [|split; [|split]]]].
+    - intros r Hr. cbn [rows s1] in Hr. apply filter_In in Hr as [_ Hr]. lia.
+    - intros r Hr. apply in_recover in Hr as [Hr _]. destruct (HJ _ Hr). auto.
+    - intros r Hr Hge. apply in_recover. split; [exact Hr|]. destruct (HJ _ Hr) as [Hlt _].
+      unfold e. destruct (e0 =? 0) eqn:E0; [rewrite Hsm; lia|]. lia.
+    - intros n Hn. lia.
+    - lia. }
+  destruct (loop_ok J f c c _ _ _ _ Hs1 Hpre) as (g1 & g2 & s2 & W & E & Hsb & Hch & Hsk & Hall & Hle & Hrows2).
+  rewrite E. destruct Hsb as (Hc2 & Hn2 & Hr2 & Hw2 & Hst2).
+  destruct (g2 <=? c) eqn:Hg2; [|lia]. cbn [negb].
+  assert (Hg1 : g1 <= c) by lia.
+  assert (Hs2 : sending_ok s2) by (unfold sending_ok; rewrite Hc2; exact Hs).
+  (* the state after the tail gap fill, in both cases *)
+  assert (Htail : exists W' s3,
+            (if g1 <? c then send_msg (gap_fill_msg g1 c) s2 else Ok s2) = Ok s3
+            /\ same_but s2 s3 W' /\ chain J f c g1 c W').
+  { destruct (g1 <? c) eqn:Hlt.
+    - eexists [_], _. split; [apply send_gap_fill; [exact Hs2|apply has_key_false; exact Hrows2]|].
+      split; [apply same_but_sent|].
+      apply chain_gap with (h := c); [lia| |left; reflexivity|apply gap_is_gap|constructor].
+      intros n Hn. destruct (Z.ltb_spec n (Z.max g1 g2)); [apply Hsk; lia|].
+      intros r Hr Hseq. specialize (Hall _ Hr). lia.
+    - exists [], s2. split; [reflexivity|]. split; [apply same_but_refl|].
+      replace g1 with c by lia. constructor. }
+  destruct Htail as (W' & s3 & E3 & (Hc3 & Hn3 & Hr3 & Hw3 & Hst3) & Hch3). rewrite E3.
+  pose proof (chain_app _ _ _ _ _ _ _ _ Hch Hch3) as Hchain.
+  unfold set_seq_num_out. destruct (c <=? 0) eqn:Hc0; [lia|].
+  assert (Hrows3 : rows s3 = filter (fun r => r_seq r <? b) J ++ (W ++ W')).
+  { rewrite Hr3, Hr2. cbn [rows s1]. rewrite app_assoc. reflexivity. }
+  assert (Hkeep : filter (fun r => r_seq r <? c) (rows s3) = rows s3).
+  { apply filter_all. apply forallb_forall. intros r Hr. rewrite Hrows3 in Hr.
+    apply in_app_or in Hr as [Hr|Hr].
+    - apply filter_In in Hr as [_ Hr]. lia.
+    - pose proof (chain_seqs _ _ _ _ _ _ Hchain _ Hr). lia. }
+  rewrite Hkeep.
+  exists (W ++ W'). eexists. split; [reflexivity|].
+  assert (Hcs : cstate s3 = cstate s) by (rewrite Hc3, Hc2; reflexivity).
+  cbn [cstate]. rewrite Hcs.
+  destruct (cstate s =? ST_AWAITING) eqn:Haw; cbn [wire nout sout rows cstate state_set].
+  - rewrite Hw3, Hw2, Hrows3. cbn [wire s1]. rewrite app_assoc. auto 10.
+  - rewrite Hw3, Hw2, Hrows3. cbn [wire s1]. rewrite app_assoc. auto 10.
 Qed.
